@@ -1,0 +1,5 @@
+//go:build !verif
+
+package sio
+
+func vhook(string, ...interface{}) {}
